@@ -70,6 +70,7 @@ def rules_C03(ctx):
     r_own.rule_raw_leak(ctx)
     r_own.rule_U1(ctx, include_panic=False, rule="U1")
     r_layout.rule_layout_agreement(ctx)
+    r_layout.rule_slot_decision(ctx)
     r_layout.rule_null_checks(ctx)
     r_api.rule_ownership_primitives(ctx)
 
